@@ -271,38 +271,38 @@ func (d *Data) handleSyncMessage(ctx *datastore.VersionedCtx, msg datastore.Sync
 
 	case imageblk.Block:
 		chunkPt := dvid.ChunkPoint3d(*delta.Index)
-		d.ingestBlock(ctx, chunkPt, delta.Data, batcher)
+		d.ingestBlock(ctx, chunkPt, delta.Data, batcher, nil)
 		mutID = delta.MutID
 
 	case imageblk.MutatedBlock:
 		chunkPt := dvid.ChunkPoint3d(*delta.Index)
-		d.mutateBlock(ctx, delta.MutID, chunkPt, delta.Prev, delta.Data, batcher)
+		d.mutateBlock(ctx, delta.MutID, chunkPt, delta.Prev, delta.Data, batcher, nil)
 		mutID = delta.MutID
 
 	case labelarray.IngestedBlock:
 		chunkPt, _ := delta.BCoord.ToChunkPoint3d()
 		data, _ := delta.Data.MakeLabelVolume()
-		d.ingestBlock(ctx, chunkPt, data, batcher)
+		d.ingestBlock(ctx, chunkPt, data, batcher, nil)
 		mutID = delta.MutID
 
 	case labelmap.IngestedBlock:
 		chunkPt, _ := delta.BCoord.ToChunkPoint3d()
 		data, _ := delta.Data.MakeLabelVolume()
-		d.ingestBlock(ctx, chunkPt, data, batcher)
+		d.ingestBlock(ctx, chunkPt, data, batcher, d.supervoxelMapper(ctx.VersionID()))
 		mutID = delta.MutID
 
 	case labelarray.MutatedBlock:
 		chunkPt, _ := delta.BCoord.ToChunkPoint3d()
 		prev, _ := delta.Prev.MakeLabelVolume()
 		data, _ := delta.Data.MakeLabelVolume()
-		d.mutateBlock(ctx, delta.MutID, chunkPt, prev, data, batcher)
+		d.mutateBlock(ctx, delta.MutID, chunkPt, prev, data, batcher, nil)
 		mutID = delta.MutID
 
 	case labelmap.MutatedBlock:
 		chunkPt, _ := delta.BCoord.ToChunkPoint3d()
 		prev, _ := delta.Prev.MakeLabelVolume()
 		data, _ := delta.Data.MakeLabelVolume()
-		d.mutateBlock(ctx, delta.MutID, chunkPt, prev, data, batcher)
+		d.mutateBlock(ctx, delta.MutID, chunkPt, prev, data, batcher, d.supervoxelMapper(ctx.VersionID()))
 		mutID = delta.MutID
 
 	case labels.DeltaMergeStart:
@@ -365,7 +365,39 @@ func (d *Data) handleSyncMessage(ctx *datastore.VersionedCtx, msg datastore.Sync
 }
 
 // If a block of labels is ingested, adjust each label's synaptic element list.
-func (d *Data) ingestBlock(ctx *datastore.VersionedCtx, chunkPt dvid.ChunkPoint3d, data []byte, batcher storage.KeyValueBatcher) {
+// supervoxelMapper returns a function giving the body that a supervoxel id of the synced labelmap
+// belongs to at version v.  The blocks a labelmap sends hold supervoxel ids while the label
+// elements are kept per body.  Returns nil (identity) if no labelmap is synced.
+func (d *Data) supervoxelMapper(v dvid.VersionID) func(uint64) uint64 {
+	var lm *labelmap.Data
+	for dataUUID := range d.SyncedData() {
+		if source, err := labelmap.GetByDataUUID(dataUUID); err == nil {
+			lm = source
+			break
+		}
+	}
+	if lm == nil {
+		return nil
+	}
+	cache := make(map[uint64]uint64)
+	return func(supervoxel uint64) uint64 {
+		if supervoxel == 0 {
+			return 0
+		}
+		if body, found := cache[supervoxel]; found {
+			return body
+		}
+		body := supervoxel
+		mapped, found, err := lm.GetMappedLabels(v, []uint64{supervoxel})
+		if err == nil && len(found) == 1 && found[0] {
+			body = mapped[0]
+		}
+		cache[supervoxel] = body
+		return body
+	}
+}
+
+func (d *Data) ingestBlock(ctx *datastore.VersionedCtx, chunkPt dvid.ChunkPoint3d, data []byte, batcher storage.KeyValueBatcher, toBody func(uint64) uint64) {
 	blockSize := d.blockSize()
 	expectedDataBytes := blockSize.Prod() * 8
 	if int64(len(data)) != expectedDataBytes {
@@ -392,6 +424,9 @@ func (d *Data) ingestBlock(ctx *datastore.VersionedCtx, chunkPt dvid.ChunkPoint3
 		pt := elems[n].Pos.Point3dInChunk(blockSize)
 		i := (pt[2]*blockSize[1]+pt[1])*blockSize[0]*8 + pt[0]*8
 		label := binary.LittleEndian.Uint64(data[i : i+8])
+		if toBody != nil {
+			label = toBody(label)
+		}
 		if label != 0 {
 			toAdd.add(label, elems[n].ElementNR)
 			added++
@@ -451,7 +486,7 @@ func (d *Data) ingestBlock(ctx *datastore.VersionedCtx, chunkPt dvid.ChunkPoint3
 }
 
 // If a block of labels is mutated, adjust any label that was either removed or added.
-func (d *Data) mutateBlock(ctx *datastore.VersionedCtx, mutID uint64, chunkPt dvid.ChunkPoint3d, prev, data []byte, batcher storage.KeyValueBatcher) {
+func (d *Data) mutateBlock(ctx *datastore.VersionedCtx, mutID uint64, chunkPt dvid.ChunkPoint3d, prev, data []byte, batcher storage.KeyValueBatcher, toBody func(uint64) uint64) {
 	// Get the synaptic elements for this block
 	tk := NewBlockTKey(chunkPt)
 	elems, err := getElements(ctx, tk)
@@ -481,6 +516,9 @@ func (d *Data) mutateBlock(ctx *datastore.VersionedCtx, mutID uint64, chunkPt dv
 		var old uint64
 		if len(prev) != 0 {
 			old = binary.LittleEndian.Uint64(prev[i : i+8])
+		}
+		if toBody != nil {
+			label, old = toBody(label), toBody(old)
 		}
 		if label != 0 {
 			toAdd.add(label, elems[n].ElementNR)
